@@ -171,6 +171,21 @@ func runSignVar(sc M) {
 				}
 			}
 			a, m, err := signature.SignEFIVariable(v, pl, signer, cert)
+			if str(sc, "sig") == "leadzero" && err == nil {
+				// an RSA signature is an octet string as long as the modulus; one in 256 begins with a zero octet.  The variable
+				// is renamed Name#1, Name#2, ... until the update carries such a signature (or one of another length than the
+				// modulus); that update is the one examined.
+				base, want := name, (testKey(key).N.BitLen()+7)/8
+				for i := 1; i <= 8000 && err == nil; i++ {
+					if pb, perr := projectP7(projectDescriptor(m.Bytes()).CertData); perr == nil && len(pb.Signers) == 1 &&
+						len(pb.Signers[0].Sig) > 0 && (pb.Signers[0].Sig[0] == 0 || len(pb.Signers[0].Sig) != want) {
+						break
+					}
+					name = fmt.Sprintf("%s#%d", base, i)
+					v.Name = name
+					a, m, err = signature.SignEFIVariable(v, pl, signer, cert)
+				}
+			}
 			for try := 0; err != nil && sc["flaky"] == true && try < 3; try++ {
 				// the token was busy: the caller asks again; whatever comes back as a success must be a valid update
 				a, m, err = signature.SignEFIVariable(v, pl, signer, cert)
